@@ -9,7 +9,7 @@ from harness.framework import Suite
 PID = "C06"
 LEAN_MODS = ["SwcVerif.Props.C06", "SwcVerif.Props.C06Gen"]
 TRANSLATE_ALGO = ["AlgoSubtree"]       # Gen/AlgoSubtree.lean is regenerated from swc_utils/subtree.py::to_sub_topology on every run
-DRIVER_FILES = ["SwcVerif/Model/AlgoRun.lean"]
+DRIVER_FILES = ["SwcVerif/Model/AlgoRunSubtree.lean"]
 THEOREMS = [
     "C06.toSubTopology_spec", "C06.toSubTopology_ok_iff", "C06.attrs_preserved", "C06.subtree_nodes", "C06.propagate_marks",
     "C06.removedSet_all", "C06.removedSet_sound", "C06.toSubtree_kept", "C06.cutEnter_removed", "C06.cutLeave_removed",
